@@ -136,6 +136,13 @@ def stringfOK (code : Nat) (preCT format : Bytes) (args : List Arg) (sprintf : B
    | some x => body == x
    | none => true)
 
+/-- the oracle for one String (0) / HTML (1) / Data (2) response on a fresh response writer: the payload
+    as given, the status as given, the documented content type -/
+def plainOK (kind code : Nat) (ct text : Bytes) (status : Nat) (ctype body : Bytes) : Bool :=
+  status == code && body == text &&
+  ctype == (if kind == 0 then bstr "text/plain" else if kind == 1 then bstr "text/html"
+            else if ct == [] then bstr "application/octet-stream" else ct)
+
 /-- no CR, no LF -/
 def noCRLF (v : Bytes) : Bool := v.all (fun c => c != '\r' && c != '\n')
 
